@@ -118,6 +118,14 @@ func TestC09(t *testing.T) {
 			}
 		}
 
+		// one case in eight: the chain has more than a hundred accounts already (address order is byte order)
+		crowded := rapid.IntRange(0, 7).Draw(t, "crowdedChain") == 0
+		if crowded {
+			for i := 0; i < 140; i++ {
+				a := v.App.AccountKeeper.NewAccountWithAddress(v.Ctx, FreshAddr(20000+i))
+				v.App.AccountKeeper.SetAccount(v.Ctx, a)
+			}
+		}
 		// before the target account comes into being, a node may have estimated the gas of transactions that
 		// create an account at the address it is going to have (simulations: executed in check mode, thrown away)
 		simulatedEarlier := 0
@@ -291,6 +299,6 @@ func TestC09(t *testing.T) {
 		}
 		nt := tk != 0
 		st.Case(nt, map[string]interface{}{"target": targetKinds[tk], "msg": fmt.Sprintf("%T", msg), "signer": signerIdx, "m": fmt.Sprint(msg)},
-			append(append(append(v.TxClasses(), map[bool][]string{true: {"creation_at_the_target_address_simulated_before_the_target_existed"}}[simulatedEarlier > 0 && (tk == 3 || tk >= 6)]...), "target_"+targetKinds[tk], fmt.Sprintf("msg_%T", msg), fmt.Sprintf("accepted_%v", res.OK()), fmt.Sprintf("panic_%v", res.Panic != nil)), fmt.Sprintf("sender_%s_splitlike_accepted_%v", []string{"not_staking", "delegated_vesting", "delegated_free"}[senderDelegation], splitLike && res.OK()))...)
+			append(append(append(append(v.TxClasses(), map[bool][]string{true: {"chain_with_more_than_150_accounts"}}[crowded]...), map[bool][]string{true: {"creation_at_the_target_address_simulated_before_the_target_existed"}}[simulatedEarlier > 0 && (tk == 3 || tk >= 6)]...), "target_"+targetKinds[tk], fmt.Sprintf("msg_%T", msg), fmt.Sprintf("accepted_%v", res.OK()), fmt.Sprintf("panic_%v", res.Panic != nil)), fmt.Sprintf("sender_%s_splitlike_accepted_%v", []string{"not_staking", "delegated_vesting", "delegated_free"}[senderDelegation], splitLike && res.OK()))...)
 	})
 }
